@@ -62,6 +62,21 @@ CHECKS = {
             "errors with the real result: all strings up to length 2 over the full open-code alphabet, up to length 3 (4 "
             "thorough) over a reduced one, datalines block templates, random longer texts.",
             "TLA+ reference lexer (OpenCode) vs. recorded results"),
+    "C12": ("model_checking", "8 C12, 7.6",
+            "TLC derives programs from the construct grammar spec/Gen.tla (random derivations under several fuel bounds); the "
+            "real lexer runs on each; TLC checks that no error is reported and that the hook's end-of-input configuration is "
+            "the initial one.",
+            "TLA+ grammar generator (Gen) -> replay on the lexer -> TLA+ clauses (GenProps)"),
+    "C13": ("model_checking", "8 C13, 7.6",
+            "The generator records, while emitting, what every delimiter, operator, integer operand, nested/quoted delimiter "
+            "character and insignificant white-space site must be lexed as; TLC checks each expectation against the real "
+            "token stream.",
+            "TLA+ grammar generator with recorded expectations -> replay -> TLA+ clauses (GenProps)"),
+    "C14": ("model_checking", "8 C14, 7.6",
+            "The generator skips exactly one mandatory delimiter of the listed kinds (or truncates before a closing "
+            "parenthesis); TLC computes where the diagnostic is expected from the mutated text and checks the error and the "
+            "zero-width recovery token.",
+            "TLA+ grammar generator with single-deletion fault action -> replay -> TLA+ clauses (GenProps)"),
     "C15": ("model_checking", "8 C15",
             "TLC evaluates the composition relation (spec/Rel.tla C15_*) on (lex(A+B), lex(A), lex(B)) for prefixes A that the "
             "recorded end-of-input configuration (hook snapshot) shows to be closed, and continuations B from fragments, soup "
